@@ -24,9 +24,9 @@ import (
 type spyConn struct {
 	*websocket.Conn
 	inW, inR, maxW, maxR int32
-	release               chan struct{}
-	held                  chan struct{}
-	heldOnce              sync.Once
+	release              chan struct{}
+	held                 chan struct{}
+	heldOnce             sync.Once
 }
 
 func (s *spyConn) enter(in, max *int32) {
